@@ -184,6 +184,7 @@ def to_model(data_file: typing.IO, _config = None, progress_callback=lambda _: N
 
   state = _State.COUNTER
   current_p = None
+  subtitle_text = ""
  
   for line_index, line in enumerate(_none_terminated(lines)):
 
@@ -215,6 +216,7 @@ def to_model(data_file: typing.IO, _config = None, progress_callback=lambda _: N
         return None
 
       current_p = model.P(doc)
+      subtitle_text = ""
 
       current_p.set_begin(
         int(m.group('begin_h')) * 3600 + 
